@@ -271,6 +271,17 @@ def writeChunk (bytes : List UInt8) (vital : Option (Nat × Bool)) (cap : Nat) (
         | none => .capacity
         | some b2 => .ok b2
 
+/-- `write_chunk` for each chunk of a list in turn, into one buffer (how the connection builds a
+packet payload) -/
+def writeChunkList (cs : List (List UInt8 × Option (Nat × Bool))) (cap : Nat) (acc : List UInt8) :
+    ChunkWriteResult :=
+  match cs with
+  | [] => .ok acc
+  | (d, v) :: rest =>
+    match writeChunk d v cap acc with
+    | .ok acc' => writeChunkList rest cap acc'
+    | r => r
+
 /-! ### reading -/
 
 inductive ReadError where
@@ -357,45 +368,71 @@ def decompressIfNeeded (t : Huffman.Table) (packet : List UInt8) (cap : Nat) : D
     | .panic s => .panic s
     | .diverge => .diverge
 
-/-- the control arm of `read_impl`: `payload` starts with the control byte and lives at offset `off`
-of `src`; `totalLen` is `bytes.len()` of the datagram -/
-def readControl (h : PacketHeader) (payload : List UInt8) (src : Src) (off : Nat) (totalLen : Nat) :
-    List Warning × Except ReadError (Control × Option Loc) :=
+/-- the `token` closure of `read_impl`: the response token in the first four bytes -/
+def responseToken (pl : List UInt8) : Except ReadError Token :=
+  if pl.length < 4 then .error .controlResponseTokenMissing
+  else if tok4 pl = tokenNone then .error .controlResponseTokenMissing
+  else .ok (tok4 pl)
+
+/-- the control arm of `read_impl`, value part: `payload` starts with the control byte and lives at
+offset `off` of `src`; `totalLen` is `bytes.len()` of the datagram -/
+def controlValue (h : PacketHeader) (payload : List UInt8) (src : Src) (off : Nat) (totalLen : Nat) :
+    Except ReadError (Control × Option Loc) :=
+  match payload with
+  | [] => .error .controlMissing
+  | c :: pl =>
+    let c := c.toNat
+    if c = CTRLMSG_KEEPALIVE then .ok (.keepAlive, none)
+    else if c = CTRLMSG_CONNECT then
+      match responseToken pl with
+      | .ok rt => .ok (.connect rt, none)
+      | .error e => .error e
+    else if c = CTRLMSG_ACCEPT then .ok (.accept, none)
+    else if c = CTRLMSG_CLOSE then
+      .ok (.close (pl.take (min (nulPos pl) CTRLMSG_CLOSE_REASON_LENGTH)), some { src := src, off := off + 1 })
+    else if c = CTRLMSG_TOKEN then
+      if h.token = tokenNone ∧ totalLen < TOKEN_REQUEST_PACKET_SIZE then .error .controlTokenRequestTooShort
+      else
+        match responseToken pl with
+        | .ok rt => .ok (.token rt, none)
+        | .error e => .error e
+    else .error .unknownControl
+
+/-- the warnings the control arm emits (in order; also those emitted before an error return) -/
+def controlWarns (h : PacketHeader) (payload : List UInt8) (totalLen : Nat) : List Warning :=
   let w0 : List Warning := if h.numChunks ≠ 0 then [.controlNumChunks] else []
   let w1 : List Warning :=
     if h.flags &&& PACKETFLAG_COMPRESSION ≠ 0 ∨ h.flags &&& PACKETFLAG_REQUEST_RESEND ≠ 0
     then [.controlFlags] else []
   match payload with
-  | [] => (w0 ++ w1, .error .controlMissing)
+  | [] => w0 ++ w1
   | c :: pl =>
     let c := c.toNat
     let wEmpty : List Warning := if pl ≠ [] then [.controlExcessData] else []
-    -- the `token` closure
-    let tokenOf (warnMore : Bool) : List Warning × Except ReadError Token :=
-      if pl.length < 4 then ([], .error .controlResponseTokenMissing)
-      else if tok4 pl = tokenNone then ([], .error .controlResponseTokenMissing)
-      else (if warnMore ∧ pl.drop 4 ≠ [] then [.controlExcessData] else [], .ok (tok4 pl))
-    if c = CTRLMSG_KEEPALIVE then (w0 ++ w1 ++ wEmpty, .ok (.keepAlive, none))
-    else if c = CTRLMSG_CONNECT then
-      match tokenOf true with
-      | (w, .ok rt) => (w0 ++ w1 ++ w, .ok (.connect rt, none))
-      | (w, .error e) => (w0 ++ w1 ++ w, .error e)
-    else if c = CTRLMSG_ACCEPT then (w0 ++ w1 ++ wEmpty, .ok (.accept, none))
-    else if c = CTRLMSG_CLOSE then
-      let nul := min (nulPos pl) CTRLMSG_CLOSE_REASON_LENGTH
-      let w3 : List Warning :=
+    -- the excess-data warning of the `token` closure (only after a token was found)
+    let wTok (warnMore : Bool) : List Warning :=
+      match responseToken pl with
+      | .ok _ => if warnMore ∧ pl.drop 4 ≠ [] then [.controlExcessData] else []
+      | .error _ => []
+    let w2 : List Warning :=
+      if c = CTRLMSG_KEEPALIVE then wEmpty
+      else if c = CTRLMSG_CONNECT then wTok true
+      else if c = CTRLMSG_ACCEPT then wEmpty
+      else if c = CTRLMSG_CLOSE then
+        let nul := min (nulPos pl) CTRLMSG_CLOSE_REASON_LENGTH
         if pl.length ≠ 0 ∧ nul + 1 ≠ pl.length then
           if nul + 1 < pl.length then [.controlExcessData] else [.controlNulTermination]
         else []
-      (w0 ++ w1 ++ w3, .ok (.close (pl.take nul), some { src := src, off := off + 1 }))
-    else if c = CTRLMSG_TOKEN then
-      if h.token = tokenNone ∧ totalLen < TOKEN_REQUEST_PACKET_SIZE then
-        (w0 ++ w1, .error .controlTokenRequestTooShort)
-      else
-        match tokenOf (h.token ≠ tokenNone) with
-        | (w, .ok rt) => (w0 ++ w1 ++ w, .ok (.token rt, none))
-        | (w, .error e) => (w0 ++ w1 ++ w, .error e)
-    else (w0 ++ w1, .error .unknownControl)
+      else if c = CTRLMSG_TOKEN then
+        if h.token = tokenNone ∧ totalLen < TOKEN_REQUEST_PACKET_SIZE then []
+        else wTok (h.token ≠ tokenNone)
+      else []
+    w0 ++ w1 ++ w2
+
+/-- the control arm of `read_impl`: warnings and value -/
+def readControl (h : PacketHeader) (payload : List UInt8) (src : Src) (off : Nat) (totalLen : Nat) :
+    List Warning × Except ReadError (Control × Option Loc) :=
+  (controlWarns h payload totalLen, controlValue h payload src off totalLen)
 
 /-- embedding of the panic-free part of the reader -/
 def ReadResult.lift : Except (ReadError × List Warning) ReadOk → ReadResult
